@@ -1,10 +1,10 @@
 #!/bin/bash
 # sweep.sh <tier> [seed] — runs every claimed check once, sequentially; summary lines to stdout
 TIER=${1:-quick}; SEED=${2:-1}
-cd /verif
+cd "$(dirname "$0")/.."
 for P in $(python3 -c "import json;print(' '.join(json.load(open('vlib/claimed.json'))))"); do
   S=$(date +%s)
-  OUT=$(VERIF_SEED=$SEED ./check $P --tier $TIER 2>/tmp/sweep-$P.err); RC=$?
+  OUT=$(VERIF_SEED=$SEED ./check $P --tier $TIER 2>/tmp/sweep-$$-$P.err); RC=$?
   E=$(( $(date +%s) - S ))
   echo "$P tier=$TIER seed=$SEED exit=$RC wall=${E}s :: $(echo "$OUT" | grep -E "^$P " | tail -1)"
   echo "$OUT" | grep -E "^VIOLATION" | head -3
